@@ -14,7 +14,7 @@ from pathlib import Path
 
 from .. import tlc
 from ..common import Outcome, Violation, WORK, NPROC, pool_map
-from ..design import I, R, Sig, Slc, Cat, Pref, Nc, Bund, Anon, AnonDict, proj_package
+from ..design import I, R, Sig, Slc, Cat, Pref, Nc, Bund, Bref, Anon, AnonDict, proj_package
 from .. import universe as U
 from . import conn
 
@@ -33,6 +33,7 @@ def term_of(port, label, ncid):
             "dict": AnonDict(x=Sig("t"), y=Sig("v2")),
             # a member that is a reference to the OTHER instance's scalar port (which has, or gets, a connection of its own)
             "anonp": Anon(x=Pref(other(inst), "a"), y=Sig("v2")), "dictp": AnonDict(x=Pref(other(inst), "a"), y=Sig("v2")),
+            "bref": Bref("b", "x"),                           # a member of the module's bundle instance b (resolved when bundles are flattened)
             "prefbit": Slc(Pref(other(inst), pn), I(0)),      # a slice (here: bit 0) of a reference to the other instance's port
             "pref": Pref(other(inst), pn)}[label]
 
@@ -97,6 +98,8 @@ def replay(args):
             return getattr(insts[other(inst)], pn)
         if label == "prefbit":
             return getattr(insts[other(inst)], pn)[0]
+        if label == "bref":
+            return ns["b"].x
         raise ValueError(label)
 
     for seq, o in enumerate(hist, 1):
@@ -278,7 +281,7 @@ def run(tier, seed, replay_file=None):
         elif c2s in ("leaf_table", "observables", "partition"):
             o.violations.append(Violation(clause="final:" + c2s, case=case, features=fs, detail={"P": finals[i]["P"]} if len(o.violations) < 20 else None))
     o.distinct_nontrivial = nt
-    vals = ["s", "bus0", "cat", "pref", "nc", "b", "anon", "dict", "anonp", "dictp", "prefbit"]
+    vals = ["s", "bus0", "cat", "pref", "nc", "b", "anon", "dict", "anonp", "dictp", "prefbit", "bref"]
     o.required_cover = ["op_connect", "op_replace", "op_disconnect", "op_read", "final_ok_valid", "multiplied_arrays"] + ["replaced_" + v for v in vals] + ["replacing_" + v for v in vals]
     rnd = random.Random(seed)
     for i in rnd.sample(range(len(cases)), 2):
